@@ -131,7 +131,12 @@ func (w *World) ApplySC(a *SCAction) bool {
 		}
 		t.Paused = a.Op == "pause"
 		for s := uint32(0); s < w.Cfg.NumShards; s++ {
-			w.control(s, vmcommon.SystemAccountAddress, fn, [][]byte{t.ID}, "")
+			rcv := append([]byte{}, vmcommon.SystemAccountAddress...)
+			if a.Nonce%3 == 1 {
+				// a per-shard form of the system account address (the first 30 bytes identify it)
+				rcv[30], rcv[31] = byte(a.Nonce>>8), byte(s)
+			}
+			w.control(s, rcv, fn, [][]byte{t.ID}, "")
 		}
 	case "drop":
 		caller := unhx(a.Addr2)
